@@ -7,6 +7,7 @@ from collections import Counter
 from .. import history
 from ..battery import call, _Raised
 from ..models import KEYS
+from ..observe import npize
 from ..observe import observe, fresh
 from ..refs import components
 
@@ -157,7 +158,7 @@ def evaluate(ctx, rng, idx, h, kind, phase, sample=None):
         return {"kind": kind, "phase": phase, "object": S.describe() if len(S.nodes) <= 20 else {"nodes": len(S.nodes), "edges": len(S.edges)}, "extra": repr(extra)[:500]}
 
     for f in filters:
-        kw = {} if f is None else {f[0]: f[1]}
+        kw = {} if f is None else {f[0]: npize(rng, f[1])}
         size = None if f is None else (f[1] if f[0] == "size" else f[1] + 1)
         sel = [k for k in S.edges if size is None or K.size(k) == size]
         # ---------------- degrees -------------------------------------------------------
